@@ -216,7 +216,9 @@ func (sta *State) UsedRandomCleaner() {
 		time.Sleep(replayCacheAgeLimit)
 		sta.usedRandomM.Lock()
 		for key, t := range sta.UsedRandom {
-			if time.Unix(t, 0).Before(sta.WorldState.Now().Add(timestampTolerance)) {
+			// an entry sighted at t can belong to a packet stamped up to t+timestampTolerance, which stays
+			// acceptable until its stamp+timestampTolerance: keep it for twice the tolerance
+			if time.Unix(t, 0).Add(2 * timestampTolerance).Before(sta.WorldState.Now()) {
 				delete(sta.UsedRandom, key)
 			}
 		}
